@@ -368,6 +368,30 @@ def gauges(model, qn, r):
     sm = base.add(other.scale(0.7))                    # raw output of add: block-diagonal tensors, not canonical
     sm = sm.scale(1.0 / float(np.linalg.norm(dense_of(sm))))      # evolve() renormalises the tensors: start from unit norm (no gauge change)
     out.append(("added-raw", sm))
+    # raw `mu @ psi` (Mpo.apply copies the gauge flags without canonicalising) for a non-unitary one-site mu on the first /
+    # middle / last site and for a single-term operator with a prefactor (stored on the last site of the MPO), from a
+    # right-canonical (to_right=True, qnidx=0) and from a left-canonical operand; raw add of two right-canonical states
+    dofs = [bs.dofs[0] if isinstance(bs.dofs, (list, tuple)) else bs.dof for bs in model.basis]
+    spin = all(isinstance(bs, ba.BasisHalfSpin) for bs in model.basis)
+    vsites = [i for i, bs in enumerate(model.basis) if isinstance(bs, ba.BasisSHO)]
+    cand = [0, len(model.basis) // 2, len(model.basis) - 1] if spin else [vsites[0], vsites[-1]]
+    for tag, operand in (("R", b), ("L", base)):
+        for k in cand:
+            if spin:
+                mu = Mpo(model, Op("Z", dofs[k], 1.0) + Op("X", dofs[k], 0.6))
+                pre = Mpo(model, Op("Z", dofs[k], 2.5))
+            else:
+                mu = Mpo(model, Op(r"b^\dagger+b", dofs[k], 1.0) + Op(r"b^\dagger b", dofs[k], 0.7))
+                pre = Mpo(model, Op(r"b^\dagger b", dofs[k], 2.5) + Op(r"b^\dagger+b", dofs[k], 2.5))
+            for oname, o in (("mu", mu), ("pref", pre)):
+                x = o @ operand
+                nrm = float(np.linalg.norm(dense_of(x)))
+                if nrm > 1e-8:
+                    out.append(("applied-%s-%s-site%d" % (tag, oname, k), x.scale(1.0 / nrm)))
+    b2 = rand_state(model, r, qn, 16)
+    b2.ensure_right_canonical()
+    sr = b.add(b2.scale(0.6))
+    out.append(("added-raw-R", sr.scale(1.0 / float(np.linalg.norm(dense_of(sr))))))
     plain, expanded = mpdm_states(model, base, mpo, qn)
     out.append(("mpdm", plain))
     if expanded is not None:
@@ -403,6 +427,59 @@ def check_gauge(mname, model, h, qn, r, table):
             records.append(rec)
             if not e <= bound:
                 fail("gauge/%s/%s" % (label.split("/")[0], gname), rec)
+
+
+def check_negative(mname, model, h, st, sname, table):
+    """backward propagation: evolve_dt < 0 (negative guess_dt where the adaptive branch is used) for every scheme and both local solvers"""
+    mpo = Mpo(model)
+    psi = dense_of(st)
+    hn = float(np.linalg.norm(h, 2))
+    for label, method, cfg, kind in table:
+        if time.time() - T0 > 1.5 * BUDGET:
+            return
+        for dt in (-0.02, -0.16):
+            try:
+                if method == "prop_and_compress_tdrk":
+                    cfg = dict(cfg, guess_dt="DT")      # check_valid_dt is applied to the non-adaptive branch as well
+                out = run(st, mpo, method, cfg, dt)
+                e = float(np.linalg.norm(dense_of(out) - ref_vec(h, psi, dt)))
+            except Exception as ex:
+                rec = {"check": "negative", "scheme": label, "model": mname, "state": sname, "dt": dt, "exc": repr(ex)[:300]}
+                records.append(rec)
+                fail("exception/negative/" + label.split("/")[0], rec)
+                continue
+            bound = call_bound(kind, hn, abs(dt)) if hn * abs(dt) <= 0.5 or kind[0] == "exact" else None
+            rec = {"check": "negative", "scheme": label, "model": mname, "state": sname, "dt": dt, "err": e, "bound": bound}
+            records.append(rec)
+            if bound is not None and not e <= bound:
+                fail("negative/" + label.split("/")[0], rec)
+
+
+def check_negative_adaptive(mname, model, h, st, sname):
+    mpo = Mpo(model)
+    psi = dense_of(st)
+    T = -0.4
+    ref = ref_vec(h, psi, T)
+    for label, method, cfg, rtols, accf in ADAPTIVE:
+        if time.time() - T0 > 1.5 * BUDGET:
+            return
+        rtol = rtols[0]
+        _cap.acc = _cap.rej = 0
+        try:
+            a = st.copy()
+            set_cfg(a, method, m_max=64, adaptive=True, guess_dt=-0.05, adaptive_rtol=rtol, **cfg)
+            out = a.evolve(mpo, T)
+            e = float(np.linalg.norm(dense_of(out) - ref))
+        except Exception as ex:
+            rec = {"check": "negative-adaptive", "scheme": label, "model": mname, "exc": repr(ex)[:300]}
+            records.append(rec)
+            fail("exception/negative/" + label.split("/")[0], rec)
+            continue
+        bound = 10 * accf * rtol * max(1, _cap.acc) + 1e-9
+        rec = {"check": "negative-adaptive", "scheme": label, "model": mname, "state": sname, "T": T, "rtol": rtol, "err": e, "bound": bound}
+        records.append(rec)
+        if not e <= bound:
+            fail("negative/" + label.split("/")[0], rec)
 
 
 CFG_FIELDS = ("method", "adaptive", "adaptive_rtol", "tdvp_cmf_midpoint", "tdvp_cmf_c_trapz", "reg_epsilon", "ivp_rtol", "ivp_atol",
@@ -517,6 +594,8 @@ for mi_, kind in enumerate(("spin", "holstein")):
         jobs.append(("gauge", kind, li))
     for li in range(0, len(table), 10):
         jobs.append(("reuse", kind, li))
+        jobs.append(("negative", kind, li))
+    jobs.append(("negative-adaptive", kind, 0))
 jobs.append(("ps1", "spin", 0))
 jobs.append(("callable", "spin", 0))
 
@@ -552,6 +631,10 @@ for what, kind, li in mine:
         check_dims(mname, model, h, qn, r2, table[li:li + 6])
     elif what == "gauge":
         check_gauge(mname, model, h, qn, r2, table[li:li + 6])
+    elif what == "negative":
+        check_negative(mname, model, h, st_c, "complex", table[li:li + 10])
+    elif what == "negative-adaptive":
+        check_negative_adaptive(mname, model, h, st_r, "real")
     elif what == "reuse":
         check_reuse(mname, model, h, st_c, "complex", table[li:li + 10])
     elif what == "ps1":
